@@ -118,10 +118,11 @@ def run(ctx):
     hist, seen = {}, set()
     for f in fails:
         hist[f["sig"]] = hist.get(f["sig"], 0) + 1
-    ctx.extra["rejection_signatures"] = hist
+    ctx.extra["monitor_rejections"] = hist
     for f in fails:
         n = f["exec"]
         if f["sig"] in seen:
+            ctx.fail(f["sig"], f["why"], {"label": cases[n][4], "see": "first execution with this signature"})
             continue
         seen.add(f["sig"])
         d1 = meta[n][5]
